@@ -218,6 +218,9 @@ func checkMain(args []string) int {
 	sort.SliceStable(run.Obls, func(i, j int) bool { return run.Obls[i].Name < run.Obls[j].Name })
 	for _, o := range run.Obls {
 		solverS += o.Secs
+		if os.Getenv("GOVC_LIST") != "" {
+			fmt.Fprintf(os.Stderr, "obl %s %s\n", o.Name, o.Status)
+		}
 		if o.Cover {
 			vac[o.Status]++
 			if o.Status == "cover-dead" {
